@@ -14,29 +14,29 @@ import (
 
 // ---------- ordered JSON ----------
 
-type jNode struct {
+type c04JNode struct {
 	kind string // obj | arr | str | num | bool | null
 	keys []string
-	vals []*jNode // obj: parallel to keys; arr: elements
-	s    string   // str value / num literal
+	vals []*c04JNode // obj: parallel to keys; arr: elements
+	s    string      // str value / num literal
 	b    bool
 }
 
-func jStr(s string) *jNode   { return &jNode{kind: "str", s: s} }
-func jNum(s string) *jNode   { return &jNode{kind: "num", s: s} }
-func jBool(b bool) *jNode    { return &jNode{kind: "bool", b: b} }
-func jNull() *jNode          { return &jNode{kind: "null"} }
-func jArr(v ...*jNode) *jNode { return &jNode{kind: "arr", vals: v} }
-func jObj(kv ...any) *jNode {
-	n := &jNode{kind: "obj"}
+func c04JStr(s string) *c04JNode       { return &c04JNode{kind: "str", s: s} }
+func c04JNum(s string) *c04JNode       { return &c04JNode{kind: "num", s: s} }
+func c04JBool(b bool) *c04JNode        { return &c04JNode{kind: "bool", b: b} }
+func c04JNull() *c04JNode              { return &c04JNode{kind: "null"} }
+func c04JArr(v ...*c04JNode) *c04JNode { return &c04JNode{kind: "arr", vals: v} }
+func c04JObj(kv ...any) *c04JNode {
+	n := &c04JNode{kind: "obj"}
 	for i := 0; i+1 < len(kv); i += 2 {
 		n.keys = append(n.keys, kv[i].(string))
-		n.vals = append(n.vals, kv[i+1].(*jNode))
+		n.vals = append(n.vals, kv[i+1].(*c04JNode))
 	}
 	return n
 }
 
-func (n *jNode) get(k string) *jNode {
+func (n *c04JNode) get(k string) *c04JNode {
 	if n == nil || n.kind != "obj" {
 		return nil
 	}
@@ -48,7 +48,7 @@ func (n *jNode) get(k string) *jNode {
 	return nil
 }
 
-func (n *jNode) set(k string, v *jNode) {
+func (n *c04JNode) set(k string, v *c04JNode) {
 	for i, kk := range n.keys {
 		if kk == k {
 			n.vals[i] = v
@@ -59,7 +59,7 @@ func (n *jNode) set(k string, v *jNode) {
 	n.vals = append(n.vals, v)
 }
 
-func (n *jNode) del(k string) {
+func (n *c04JNode) del(k string) {
 	for i, kk := range n.keys {
 		if kk == k {
 			n.keys = append(n.keys[:i:i], n.keys[i+1:]...)
@@ -69,11 +69,11 @@ func (n *jNode) del(k string) {
 	}
 }
 
-func (n *jNode) clone() *jNode {
+func (n *c04JNode) clone() *c04JNode {
 	if n == nil {
 		return nil
 	}
-	c := &jNode{kind: n.kind, s: n.s, b: n.b}
+	c := &c04JNode{kind: n.kind, s: n.s, b: n.b}
 	c.keys = append([]string{}, n.keys...)
 	for _, v := range n.vals {
 		c.vals = append(c.vals, v.clone())
@@ -81,10 +81,10 @@ func (n *jNode) clone() *jNode {
 	return c
 }
 
-func jParse(data []byte) (*jNode, error) {
+func c04JParse(data []byte) (*c04JNode, error) {
 	dec := json.NewDecoder(bytes.NewReader(data))
 	dec.UseNumber()
-	n, err := jParseValue(dec)
+	n, err := c04JParseValue(dec)
 	if err != nil {
 		return nil, err
 	}
@@ -94,7 +94,7 @@ func jParse(data []byte) (*jNode, error) {
 	return n, nil
 }
 
-func jParseValue(dec *json.Decoder) (*jNode, error) {
+func c04JParseValue(dec *json.Decoder) (*c04JNode, error) {
 	tok, err := dec.Token()
 	if err != nil {
 		return nil, err
@@ -103,13 +103,13 @@ func jParseValue(dec *json.Decoder) (*jNode, error) {
 	case json.Delim:
 		switch t {
 		case '{':
-			n := &jNode{kind: "obj"}
+			n := &c04JNode{kind: "obj"}
 			for dec.More() {
 				kt, err := dec.Token()
 				if err != nil {
 					return nil, err
 				}
-				v, err := jParseValue(dec)
+				v, err := c04JParseValue(dec)
 				if err != nil {
 					return nil, err
 				}
@@ -119,9 +119,9 @@ func jParseValue(dec *json.Decoder) (*jNode, error) {
 			_, err := dec.Token()
 			return n, err
 		case '[':
-			n := &jNode{kind: "arr"}
+			n := &c04JNode{kind: "arr"}
 			for dec.More() {
-				v, err := jParseValue(dec)
+				v, err := c04JParseValue(dec)
 				if err != nil {
 					return nil, err
 				}
@@ -132,18 +132,18 @@ func jParseValue(dec *json.Decoder) (*jNode, error) {
 		}
 		return nil, fmt.Errorf("unexpected delimiter")
 	case string:
-		return jStr(t), nil
+		return c04JStr(t), nil
 	case json.Number:
-		return jNum(t.String()), nil
+		return c04JNum(t.String()), nil
 	case bool:
-		return jBool(t), nil
+		return c04JBool(t), nil
 	case nil:
-		return jNull(), nil
+		return c04JNull(), nil
 	}
 	return nil, fmt.Errorf("unexpected token")
 }
 
-func (n *jNode) render(sb *strings.Builder) {
+func (n *c04JNode) render(sb *strings.Builder) {
 	switch n.kind {
 	case "obj":
 		sb.WriteByte('{')
@@ -182,26 +182,26 @@ func (n *jNode) render(sb *strings.Builder) {
 	}
 }
 
-func (n *jNode) String() string {
+func (n *c04JNode) String() string {
 	var sb strings.Builder
 	n.render(&sb)
 	return sb.String()
 }
 
 // every object node of the tree, with the key under which it hangs ("" at the root / in arrays)
-type jSite struct {
-	node   *jNode
-	parent *jNode
+type c04JSite struct {
+	node   *c04JNode
+	parent *c04JNode
 	key    string
 	idx    int
 	depth  int
 }
 
-func jSites(root *jNode) []jSite {
-	var out []jSite
-	var walk func(n, parent *jNode, key string, idx, depth int)
-	walk = func(n, parent *jNode, key string, idx, depth int) {
-		out = append(out, jSite{n, parent, key, idx, depth})
+func c04JSites(root *c04JNode) []c04JSite {
+	var out []c04JSite
+	var walk func(n, parent *c04JNode, key string, idx, depth int)
+	walk = func(n, parent *c04JNode, key string, idx, depth int) {
+		out = append(out, c04JSite{n, parent, key, idx, depth})
 		switch n.kind {
 		case "obj":
 			for i, v := range n.vals {
@@ -217,7 +217,7 @@ func jSites(root *jNode) []jSite {
 	return out
 }
 
-func (s jSite) replace(v *jNode) {
+func (s c04JSite) replace(v *c04JNode) {
 	if s.parent == nil {
 		*s.node = *v
 		return
@@ -229,51 +229,51 @@ func (s jSite) replace(v *jNode) {
 
 var c04JSONTypes = []string{"string", "object", "array", "boolean", "integer", "number", "null", "any", "", "String"}
 
-func c04WeirdValue(r *rng, depth int) *jNode {
+func c04WeirdValue(r *rng, depth int) *c04JNode {
 	switch r.intn(16) {
 	case 0:
-		return jNull()
+		return c04JNull()
 	case 1:
-		return jBool(r.chance(50))
+		return c04JBool(r.chance(50))
 	case 2:
-		return jNum(pick(r, []string{"0", "-1", "1", "3.5", "1e400", "-0", "9223372036854775808", "18446744073709551616", "1e-400", "0.1"}))
+		return c04JNum(pick(r, []string{"0", "-1", "1", "3.5", "1e400", "-0", "9223372036854775808", "18446744073709551616", "1e-400", "0.1"}))
 	case 3:
-		return jStr(pick(r, []string{"", " ", "a", "-", "+", "-1", "0", "1a", "a b", "#", "#/", "$ref", "é", "\x00", "😀", "%l", "../x", "a.b.c"}))
+		return c04JStr(pick(r, []string{"", " ", "a", "-", "+", "-1", "0", "1a", "a b", "#", "#/", "$ref", "é", "\x00", "😀", "%l", "../x", "a.b.c"}))
 	case 4:
-		return jArr()
+		return c04JArr()
 	case 5:
-		return jObj()
+		return c04JObj()
 	case 6:
-		return jArr(jNull())
+		return c04JArr(c04JNull())
 	case 7:
-		return jObj("", jNull())
+		return c04JObj("", c04JNull())
 	case 8:
 		if depth < 2 {
-			return jArr(c04WeirdValue(r, depth+1), c04WeirdValue(r, depth+1))
+			return c04JArr(c04WeirdValue(r, depth+1), c04WeirdValue(r, depth+1))
 		}
-		return jArr(jStr("x"))
+		return c04JArr(c04JStr("x"))
 	case 9:
 		if depth < 2 {
-			return jObj(pick(r, []string{"type", "a", "", "$ref", "items"}), c04WeirdValue(r, depth+1))
+			return c04JObj(pick(r, []string{"type", "a", "", "$ref", "items"}), c04WeirdValue(r, depth+1))
 		}
-		return jObj("a", jNum("1"))
+		return c04JObj("a", c04JNum("1"))
 	case 10:
-		return jObj("type", jStr(pick(r, c04JSONTypes)))
+		return c04JObj("type", c04JStr(pick(r, c04JSONTypes)))
 	case 11:
-		return jObj("$ref", jStr(pick(r, []string{"#", "#/definitions/Nope", "#/components/schemas/Nope", "", "x.json#/a", "#/$defs/A"})))
+		return c04JObj("$ref", c04JStr(pick(r, []string{"#", "#/definitions/Nope", "#/components/schemas/Nope", "", "x.json#/a", "#/$defs/A"})))
 	case 12:
-		return jObj("enum", jArr(jStr("a"), jNum("1"), jNull(), jStr("")))
+		return c04JObj("enum", c04JArr(c04JStr("a"), c04JNum("1"), c04JNull(), c04JStr("")))
 	case 13:
-		return jObj("type", jArr(jStr("string"), jStr("null")))
+		return c04JObj("type", c04JArr(c04JStr("string"), c04JStr("null")))
 	case 14:
-		return jObj("type", jStr("array"))
+		return c04JObj("type", c04JStr("array"))
 	default:
-		return jObj("type", jStr("object"), "additionalProperties", c04WeirdValue(r, depth+1))
+		return c04JObj("type", c04JStr("object"), "additionalProperties", c04WeirdValue(r, depth+1))
 	}
 }
 
 // names of the definitions of the document (JSON Schema definitions/$defs, OpenAPI components)
-func c04DefsOf(root *jNode) (container *jNode, prefix string) {
+func c04DefsOf(root *c04JNode) (container *c04JNode, prefix string) {
 	if d := root.get("definitions"); d != nil && d.kind == "obj" {
 		return d, "#/definitions/"
 	}
@@ -289,9 +289,9 @@ func c04DefsOf(root *jNode) (container *jNode, prefix string) {
 }
 
 // one grammar-aware mutation; returns a short description
-func c04MutateSchema(r *rng, root *jNode) string {
-	sites := jSites(root)
-	var objs []jSite
+func c04MutateSchema(r *rng, root *c04JNode) string {
+	sites := c04JSites(root)
+	var objs []c04JSite
 	for _, s := range sites {
 		if s.node.kind == "obj" {
 			objs = append(objs, s)
@@ -326,37 +326,37 @@ func c04MutateSchema(r *rng, root *jNode) string {
 		}
 	case 2: // swap type
 		t := pick(r, c04JSONTypes)
-		n.set("type", jStr(t))
+		n.set("type", c04JStr(t))
 		return "type=" + t
 	case 3: // type list
-		n.set("type", jArr(jStr(pick(r, c04JSONTypes)), jStr(pick(r, c04JSONTypes))))
+		n.set("type", c04JArr(c04JStr(pick(r, c04JSONTypes)), c04JStr(pick(r, c04JSONTypes))))
 		return "type-list"
 	case 4:
 		n.del("type")
 		return "drop-type"
 	case 5:
 		n.del("items")
-		n.set("type", jStr("array"))
+		n.set("type", c04JStr("array"))
 		return "array-without-items"
 	case 6: // tuple items
-		n.set("type", jStr("array"))
-		n.set("items", jArr(jObj("type", jStr("string")), jObj("type", jStr("integer"))))
+		n.set("type", c04JStr("array"))
+		n.set("items", c04JArr(c04JObj("type", c04JStr("string")), c04JObj("type", c04JStr("integer"))))
 		return "tuple-items"
 	case 7: // enum without type
 		n.del("type")
-		n.set("enum", jArr(jStr("a"), jStr("b")))
+		n.set("enum", c04JArr(c04JStr("a"), c04JStr("b")))
 		return "enum-without-type"
 	case 8: // odd enums
-		vals := []*jNode{}
+		vals := []*c04JNode{}
 		for i := r.intn(4); i >= 0; i-- {
 			vals = append(vals, c04WeirdValue(r, 2))
 		}
 		if r.chance(30) {
 			vals = nil
 		}
-		n.set("enum", jArr(vals...))
+		n.set("enum", c04JArr(vals...))
 		if r.chance(50) {
-			n.set("type", jStr(pick(r, c04JSONTypes)))
+			n.set("type", c04JStr(pick(r, c04JSONTypes)))
 		}
 		return "weird-enum"
 	case 9: // self / cyclic / dangling reference
@@ -364,36 +364,36 @@ func c04MutateSchema(r *rng, root *jNode) string {
 		if r.chance(50) {
 			n.keys, n.vals = nil, nil
 		}
-		n.set("$ref", jStr(ref))
+		n.set("$ref", c04JStr(ref))
 		return "ref=" + ref
 	case 10: // alias cycle between two definitions
 		if defs != nil && len(defs.keys) >= 2 {
 			a, b := defs.keys[0], defs.keys[len(defs.keys)-1]
-			defs.set(a, jObj("$ref", jStr(prefix+b)))
-			defs.set(b, jObj("$ref", jStr(prefix+a)))
+			defs.set(a, c04JObj("$ref", c04JStr(prefix+b)))
+			defs.set(b, c04JObj("$ref", c04JStr(prefix+a)))
 			return "alias-cycle:" + a + "," + b
 		}
 		if defs != nil && len(defs.keys) == 1 {
 			a := defs.keys[0]
-			defs.set(a, jObj("$ref", jStr(prefix+a)))
+			defs.set(a, c04JObj("$ref", c04JStr(prefix+a)))
 			return "alias-self:" + a
 		}
 	case 11: // discriminator on whatever this is
-		d := jObj("propertyName", jStr(pick(r, []string{"kind", "type", "", "nope"})))
+		d := c04JObj("propertyName", c04JStr(pick(r, []string{"kind", "type", "", "nope"})))
 		if r.chance(60) {
-			d.set("mapping", jObj("a", jStr(someDef()), "b", jStr(pick(r, []string{"Nope", "", "#/x", someDef()}))))
+			d.set("mapping", c04JObj("a", c04JStr(someDef()), "b", c04JStr(pick(r, []string{"Nope", "", "#/x", someDef()}))))
 		}
 		n.set("discriminator", d)
 		if r.chance(50) {
-			n.set(pick(r, []string{"oneOf", "anyOf"}), jArr(jObj("type", jStr("string")), jObj("$ref", jStr(someDef())), jObj("type", jStr("array"), "items", jObj("type", jStr("integer")))))
+			n.set(pick(r, []string{"oneOf", "anyOf"}), c04JArr(c04JObj("type", c04JStr("string")), c04JObj("$ref", c04JStr(someDef())), c04JObj("type", c04JStr("array"), "items", c04JObj("type", c04JStr("integer")))))
 		}
 		return "discriminator"
 	case 12: // empty / odd property names
 		p := n.get("properties")
 		if p == nil || p.kind != "obj" {
-			p = jObj()
+			p = c04JObj()
 			n.set("properties", p)
-			n.set("type", jStr("object"))
+			n.set("type", c04JStr("object"))
 		}
 		k := pick(r, []string{"", " ", "-", "1", "a b", "+x", "type", "é", "$ref", "class", "func"})
 		p.set(k, c04WeirdValue(r, 1))
@@ -401,9 +401,9 @@ func c04MutateSchema(r *rng, root *jNode) string {
 	case 13: // empty / odd definition names
 		if defs != nil {
 			k := pick(r, []string{"", " ", "-", "1", "a b", "+x", "a/b", "a.b", "#", "é", "Class", "type"})
-			defs.set(k, jObj("type", jStr("object"), "properties", jObj("f", jObj("type", jStr("string")))))
+			defs.set(k, c04JObj("type", c04JStr("object"), "properties", c04JObj("f", c04JObj("type", c04JStr("string")))))
 			if r.chance(60) {
-				n.set("$ref", jStr(prefix+k))
+				n.set("$ref", c04JStr(prefix+k))
 			}
 			return "odd-definition:" + k
 		}
@@ -418,11 +418,11 @@ func c04MutateSchema(r *rng, root *jNode) string {
 			return "replace-value:" + n.keys[i]
 		}
 	case 16:
-		n.set("additionalProperties", pick(r, []*jNode{jBool(true), jBool(false), jObj(), jObj("type", jStr("string")), jNull(), jArr(), jStr("x"), jObj("$ref", jStr(someDef()))}))
+		n.set("additionalProperties", pick(r, []*c04JNode{c04JBool(true), c04JBool(false), c04JObj(), c04JObj("type", c04JStr("string")), c04JNull(), c04JArr(), c04JStr("x"), c04JObj("$ref", c04JStr(someDef()))}))
 		if r.chance(50) {
 			n.del("properties")
 		}
-		n.set("type", jStr("object"))
+		n.set("type", c04JStr("object"))
 		return "additionalProperties"
 	case 17:
 		n.set("const", c04WeirdValue(r, 1))
@@ -435,48 +435,48 @@ func c04MutateSchema(r *rng, root *jNode) string {
 		return "default"
 	case 19:
 		k := pick(r, []string{"allOf", "oneOf", "anyOf"})
-		var vals []*jNode
+		var vals []*c04JNode
 		for i := r.intn(3); i > 0; i-- {
 			vals = append(vals, c04WeirdValue(r, 1))
 		}
-		n.set(k, jArr(vals...))
+		n.set(k, c04JArr(vals...))
 		return k + "-weird"
 	case 20:
 		k := pick(r, []string{"allOf", "oneOf", "anyOf"})
-		n.set(k, jArr(jObj("$ref", jStr(someDef())), jObj("type", jStr("object"), "properties", jObj("kind", jObj("type", jStr("string"), "const", c04WeirdValue(r, 2))))))
+		n.set(k, c04JArr(c04JObj("$ref", c04JStr(someDef())), c04JObj("type", c04JStr("object"), "properties", c04JObj("kind", c04JObj("type", c04JStr("string"), "const", c04WeirdValue(r, 2))))))
 		return k + "-refs"
 	case 21:
-		n.set("required", pick(r, []*jNode{jStr("a"), jArr(jNum("1")), jArr(jStr("nope")), jNull(), jObj(), jBool(true)}))
+		n.set("required", pick(r, []*c04JNode{c04JStr("a"), c04JArr(c04JNum("1")), c04JArr(c04JStr("nope")), c04JNull(), c04JObj(), c04JBool(true)}))
 		return "required"
 	case 22:
-		n.set("nullable", pick(r, []*jNode{jBool(true), jStr("yes"), jNull()}))
+		n.set("nullable", pick(r, []*c04JNode{c04JBool(true), c04JStr("yes"), c04JNull()}))
 		return "nullable"
 	case 23:
-		n.set("format", jStr(pick(r, []string{"date-time", "byte", "int32", "int64", "float", "double", "", "nope", "password", "date"})))
+		n.set("format", c04JStr(pick(r, []string{"date-time", "byte", "int32", "int64", "float", "double", "", "nope", "password", "date"})))
 		return "format"
 	case 24:
 		k := pick(r, []string{"minimum", "maximum", "exclusiveMinimum", "exclusiveMaximum", "multipleOf", "minLength", "maxLength", "minItems", "maxItems"})
-		n.set(k, pick(r, []*jNode{jNum("1e400"), jNum("-1"), jNum("0"), jNum("9223372036854775808"), jNum("1.5"), jStr("1"), jBool(true), jNull(), jNum("1e19")}))
+		n.set(k, pick(r, []*c04JNode{c04JNum("1e400"), c04JNum("-1"), c04JNum("0"), c04JNum("9223372036854775808"), c04JNum("1.5"), c04JStr("1"), c04JBool(true), c04JNull(), c04JNum("1e19")}))
 		if r.chance(50) {
 			n.del("type")
 		}
 		return "constraint:" + k
 	case 25: // deep nesting
 		d := 20 + r.intn(200)
-		cur := jObj("type", jStr("string"))
+		cur := c04JObj("type", c04JStr("string"))
 		for i := 0; i < d; i++ {
 			if r.chance(50) {
-				cur = jObj("type", jStr("array"), "items", cur)
+				cur = c04JObj("type", c04JStr("array"), "items", cur)
 			} else {
-				cur = jObj("type", jStr("object"), "properties", jObj("p", cur))
+				cur = c04JObj("type", c04JStr("object"), "properties", c04JObj("p", cur))
 			}
 		}
-		n.set("properties", jObj("deep", cur))
-		n.set("type", jStr("object"))
+		n.set("properties", c04JObj("deep", cur))
+		n.set("type", c04JStr("object"))
 		return fmt.Sprintf("deep:%d", d)
 	case 26:
-		n.set("pattern", jStr(pick(r, []string{"^math$", "^$", "(", "^a|b$", "^\\d+$", "", "^[$", "^ü$"})))
-		n.set("type", jStr("string"))
+		n.set("pattern", c04JStr(pick(r, []string{"^math$", "^$", "(", "^a|b$", "^\\d+$", "", "^[$", "^ü$"})))
+		n.set("type", c04JStr("string"))
 		return "pattern"
 	case 27: // move a definition into place (inline) or swap two subtrees
 		if len(objs) >= 2 {
@@ -496,29 +496,29 @@ func c04MutateSchema(r *rng, root *jNode) string {
 			root.set(k, c04WeirdValue(r, 0))
 			return "root-weird:" + k
 		default:
-			root.set("$schema", jStr(pick(r, []string{"http://json-schema.org/draft-07/schema#", "http://json-schema.org/draft-04/schema#", "https://json-schema.org/draft/2019-09/schema", "https://json-schema.org/draft/2020-12/schema", "nope"})))
+			root.set("$schema", c04JStr(pick(r, []string{"http://json-schema.org/draft-07/schema#", "http://json-schema.org/draft-04/schema#", "https://json-schema.org/draft/2019-09/schema", "https://json-schema.org/draft/2020-12/schema", "nope"})))
 			return "root-draft"
 		}
 	case 29:
-		n.set("patternProperties", jObj(pick(r, []string{"^a", "(", ""}), c04WeirdValue(r, 1)))
+		n.set("patternProperties", c04JObj(pick(r, []string{"^a", "(", ""}), c04WeirdValue(r, 1)))
 		if r.chance(50) {
 			n.del("properties")
 		}
 		return "patternProperties"
 	case 30:
-		n.set("description", pick(r, []*jNode{jStr("a\n\nb\n"), jStr("*/ /* \"\"\" ''' \\"), jStr("{{ .X }}"), jNum("1"), jNull(), jStr("\t`x`\r\n")}))
+		n.set("description", pick(r, []*c04JNode{c04JStr("a\n\nb\n"), c04JStr("*/ /* \"\"\" ''' \\"), c04JStr("{{ .X }}"), c04JNum("1"), c04JNull(), c04JStr("\t`x`\r\n")}))
 		return "description"
 	case 31: // property whose value is a bare reference to a scalar / enum / array definition
 		if defs != nil {
 			k := pick(r, []string{"Alias", "alias", "E"})
-			defs.set(k, pick(r, []*jNode{jObj("type", jStr("string")), jObj("type", jStr("string"), "enum", jArr(jStr("a"), jStr(""))), jObj("type", jStr("array"), "items", jObj("$ref", jStr(someDef()))), jObj("$ref", jStr(someDef()))}))
-			n.set("properties", jObj("al", jObj("$ref", jStr(prefix+k))))
-			n.set("type", jStr("object"))
+			defs.set(k, pick(r, []*c04JNode{c04JObj("type", c04JStr("string")), c04JObj("type", c04JStr("string"), "enum", c04JArr(c04JStr("a"), c04JStr(""))), c04JObj("type", c04JStr("array"), "items", c04JObj("$ref", c04JStr(someDef()))), c04JObj("$ref", c04JStr(someDef()))}))
+			n.set("properties", c04JObj("al", c04JObj("$ref", c04JStr(prefix+k))))
+			n.set("type", c04JStr("object"))
 			return "alias-definition:" + k
 		}
 	case 32: // items oddities
-		n.set("items", pick(r, []*jNode{jBool(true), jBool(false), jArr(), jNull(), jObj(), jStr("x"), jObj("$ref", jStr(someDef())), jArr(jObj())}))
-		n.set("type", jStr("array"))
+		n.set("items", pick(r, []*c04JNode{c04JBool(true), c04JBool(false), c04JArr(), c04JNull(), c04JObj(), c04JStr("x"), c04JObj("$ref", c04JStr(someDef())), c04JArr(c04JObj())}))
+		n.set("type", c04JStr("array"))
 		return "items-weird"
 	default:
 		// two mutations at once
